@@ -5,7 +5,7 @@
    background task that took it over reaches its deadline (T4 / 32 s / 64*T1; the deadlines are validated
    against the real tables by the differential runs). *)
 From Coq Require Import List Arith NArith Bool.
-From EZK Require Import Gen.Tables Model.C16 Proofs.C16.
+From EZK Require Import Model.Forms8 Proofs.Forms8 Gen.Tables Model.C16 Proofs.C16.
 Import ListNotations.
 Open Scope N_scope.
 
@@ -54,3 +54,17 @@ Example C16_example :
       [Create 1 1; Detach 1 32000; Create 2 2; Advance 32000];
       [Create 1 1; Detach 1 32000; Create 2 2; Advance 32000; Drop 2] ] = [2; 2; 1; 0].
 Proof. vm_compute. reflexivity. Qed.
+
+(* "requests nobody answers cannot grow state": after a gap is filled the dialog expects the number after the last released request, so a
+   peer that goes on in order is never parked; computed from the arriving request instead, every later request would be ahead of the
+   expected number and stay in the backlog, with its transaction entry, for as long as the dialog lives *)
+Theorem C16_next_cseq_guard : next_cseq_from_last_released = true.
+Proof. reflexivity. Qed.
+
+Theorem C16_in_order_peer_never_parked : next_cseq_from_last_released = true ->
+  forall arriving k, next_after_release arriving k = (arriving + N.of_nat k + 1)%N.
+Proof. exact next_here. Qed.
+
+Theorem C16_next_from_arriving_refuted : forall arriving (k : nat), (0 < k)%nat ->
+  (next_after_release_form false arriving k < arriving + N.of_nat k + 1)%N.
+Proof. exact next_from_arriving_parks. Qed.
